@@ -283,6 +283,10 @@ func (r *recorder) registered(name string) bool {
 		return name != "OnSuccess" && name != "OnFailure"
 	case 5: // fallbacks are built with BuilderWithResult / BuilderWithError: there is no fallback function to observe
 		return name != "FallbackFn"
+	case 6: // retry policies without an OnAbort listener (everything else registered)
+		return name != "OnAbort"
+	case 7: // breakers without the state-specific listeners (OnOpen / OnHalfOpen / OnClose): OnStateChanged still sees everything
+		return name != "CbSpecific"
 	case 4: // policies: only OnSuccess/OnFailure listeners plus the executor's
 		switch name {
 		case "OnRetryScheduled", "OnRetry", "OnAbort", "OnRetriesExceeded", "OnFull", "OnRateLimitExceeded", "OnHedge",
@@ -715,10 +719,13 @@ func buildStack(stack []desc, unit time.Duration, rec *recorder) *builtStack {
 			sp := func(e circuitbreaker.StateChangedEvent) {
 				specific = append(specific, stateName(e.OldState)+">"+stateName(e.NewState))
 			}
-			b.OnOpen(sp).OnHalfOpen(sp).OnClose(sp)
+			withSpecific := rec.registered("CbSpecific")
+			if withSpecific {
+				b.OnOpen(sp).OnHalfOpen(sp).OnClose(sp)
+			}
 			b.OnStateChanged(func(e circuitbreaker.StateChangedEvent) {
 				// the specific listener for this transition must have been called just before
-				ok := len(specific) > 0 && specific[len(specific)-1] == stateName(e.OldState)+">"+stateName(e.NewState)
+				ok := !withSpecific || (len(specific) > 0 && specific[len(specific)-1] == stateName(e.OldState)+">"+stateName(e.NewState))
 				name := "StateChanged"
 				if !ok {
 					name = "StateChanged(no specific listener)"
@@ -837,10 +844,10 @@ func buildStack(stack []desc, unit time.Duration, rec *recorder) *builtStack {
 			p = b.Build()
 		case "to":
 			lim := d.Limit
-			if lim == 0 {
-				lim = 1000000
+			if lim == 0 && !rec.tmode {
+				lim = 1000000 // (the sequential machine's Timeout never fires)
 			}
-			b := timeout.Builder[string](time.Duration(lim) * unit)
+			b := timeout.Builder[string](time.Duration(lim) * unit) // timed scenarios: a zero limit is a zero limit
 			if rec.registered("OnTimeoutExceeded") {
 				b.OnTimeoutExceeded(func(e failsafe.ExecutionDoneEvent[string]) {
 					rec.info("OnTimeoutExceeded", evLayer, e, e.Result, e.Error, nil)
@@ -915,7 +922,7 @@ func kindOfLayer(stack []desc, l int) string {
 }
 
 func replaySeq(b fsBehaviour, unit time.Duration, entry int, variant int) (mis []fsMismatch, nontrivial bool) {
-	rec := &recorder{unit: unit, variant: variant % 6, alt: (variant / 6) % 4, t0: time.Now()}
+	rec := &recorder{unit: unit, variant: variant % 8, alt: (variant / 8) % 4, t0: time.Now()}
 	bs := buildStack(b.Stack, unit, rec)
 	n := len(b.Stack)
 	add := func(x int, tag, kind, f string, a ...any) {
@@ -1193,11 +1200,11 @@ func init() {
 				}
 				var mis []fsMismatch
 				synctest.Test(t, func(t *testing.T) {
-					mis, nt = replaySeq(b, unit, entry, int(k)%24)
+					mis, nt = replaySeq(b, unit, entry, int(k)%32)
 				})
 				if len(mis) > 0 {
 					if bad.Add(1) <= 40 {
-						emit(M{"k": "mismatch", "entry": entry, "variant": int(k) % 24, "mis": mis, "behaviour": json.RawMessage(mustJSON(b))})
+						emit(M{"k": "mismatch", "entry": entry, "variant": int(k) % 32, "mis": mis, "behaviour": json.RawMessage(mustJSON(b))})
 					} else {
 						tags := map[string]bool{}
 						for _, m := range mis {
